@@ -170,7 +170,7 @@ func (g *RNG) specFrame(v int, validType bool) *RefFrame {
 
 func runC02(r *Run) {
 	g := r.rng
-	r.st.Rule = "encoder: structured valid packets (3 types x verify x metadata x body-length boundaries x field extremes x thresholds) through Pack, compared byte-for-byte with the model and with an independent layout-derived encoder; decoder: frames laid out by the reference encoder for every type nibble 0-15, flag combination, reserve bits and field extreme through UnpackBytes and streaming Unpack, compared field-for-field with the model and the layout-derived decoder. Encodes and decodes are interleaved in one process so recycled header objects carry stale state. distinct = distinct request lines"
+	r.st.Rule = "encoder: structured valid packets (3 types x verify x metadata x body-length boundaries x field extremes x thresholds) through Pack, compared byte-for-byte with the model and with an independent layout-derived encoder; decoder: frames laid out by the reference encoder for every type nibble 0-15, flag combination, reserve bits and field extreme through UnpackBytes and streaming Unpack, compared field-for-field with the model and the layout-derived decoder. Encodes and decodes are interleaved in one process so recycled header objects carry stale state. Also: v2 metadata ending exactly at, below and above the 16-bit budget through Pack (frame re-read by its own length fields); a conformant frame after a rejected one on the same context (streaming) decodes as on a fresh context. distinct = distinct request lines"
 	n := 2500
 	if r.thorough() {
 		n = 40000
